@@ -198,15 +198,20 @@ XmlFloatTable == <<
   [f64 |-> <<192, 2, 0, 0, 0, 0, 0, 0>>, f32 |-> <<192, 16, 0, 0>>, text |-> <<45, 50, 46, 50, 53>>],           \* -2.25
   [f64 |-> <<0, 0, 0, 0, 0, 0, 0, 0>>, f32 |-> <<0, 0, 0, 0>>, text |-> <<48>>],                                \* 0
   [f64 |-> <<64, 144, 0, 0, 0, 0, 0, 0>>, f32 |-> <<68, 128, 0, 0>>, text |-> <<49, 48, 50, 52>>],              \* 1024
-  [f64 |-> <<63, 208, 0, 0, 0, 0, 0, 0>>, f32 |-> <<62, 128, 0, 0>>, text |-> <<48, 46, 50, 53>>]               \* 0.25
+  [f64 |-> <<63, 208, 0, 0, 0, 0, 0, 0>>, f32 |-> <<62, 128, 0, 0>>, text |-> <<48, 46, 50, 53>>],              \* 0.25
+  \* 0.1 + 0.2 as a double: needs all 17 significant digits; read into a float it is the float nearest to it (0.3f)
+  [f64 |-> <<63, 211, 51, 51, 51, 51, 51, 52>>, f32 |-> <<62, 153, 153, 154>>,
+   text |-> <<48, 46, 51, 48, 48, 48, 48, 48, 48, 48, 48, 48, 48, 48, 48, 48, 48, 48, 52>>]
 >>
+\* entries whose text is the print form of the float (and not only of the double) value
+XmlFloat32Rows == 1..5
 \* text form of a scalar (<<>> for null)
 XmlText(v) ==
   IF v[1] = "nil" THEN <<>>
   ELSE IF v[1] = "bool" THEN (IF v[2] THEN <<116, 114, 117, 101>> ELSE <<102, 97, 108, 115, 101>>)
   ELSE IF v[1] = "int" THEN RInt(v[2], v[3])
   ELSE IF v[1] \in {"f64", "f32"} THEN
-       (LET i == CHOOSE k \in 1..Len(XmlFloatTable) : (IF v[1] = "f64" THEN XmlFloatTable[k].f64 ELSE XmlFloatTable[k].f32) = v[2] IN XmlFloatTable[i].text)
+       (LET i == CHOOSE k \in (IF v[1] = "f64" THEN 1..Len(XmlFloatTable) ELSE XmlFloat32Rows) : (IF v[1] = "f64" THEN XmlFloatTable[k].f64 ELSE XmlFloatTable[k].f32) = v[2] IN XmlFloatTable[i].text)
   ELSE StrBytesToCps(v[2])[2]
 
 N(s) == s
